@@ -183,48 +183,41 @@ theorem wfRollbackT_of (s : Store) (b : Block) (h1 : wfAppendB s b = true) (h2 :
     (li : LockInv s) (ti : TypeInv s) : WFRollbackT s b := by
   have hall := List.all_eq_true.mp h2
   have wfa := wfAppend_of_B s b h1
-  refine { toWFRollback := { toWFAppend := wfa, freshLock := ?_, freshTxLock := ?_, freshConsumed := ?_,
-      freshTx := ?_, hdrBelow := ?_, lockInv := li }, freshType := ?_, freshTxType := ?_, typeInv := ti }
-  · intro sc txi io
+  have fresh : ∀ k : Key, (match k with
+      | .cellLock _ bn _ _ | .cellType _ bn _ _ | .txLock _ bn _ _ _ | .txType _ bn _ _ _
+      | .consumed bn _ => bn = b.number
+      | _ => False) → get s k = none := by
+    intro k hk
     apply get_none_of
     intro e he heq
     have := hall e he
     rw [heq] at this
-    simp at this
-  · intro sc txi io t
-    apply get_none_of
-    intro e he heq
-    have := hall e he
-    rw [heq] at this
-    simp at this
-  · intro op
-    apply get_none_of
-    intro e he heq
-    have := hall e he
-    rw [heq] at this
-    simp at this
-  · intro tx htx
+    cases k <;> simp_all
+  have hTx : ∀ tx ∈ b.txs, get s (.txHash tx.id) = none := by
+    intro tx htx
     apply get_none_of
     intro e he heq
     have := hall e he
     rw [heq] at this
     simp only [List.all_eq_true, decide_eq_true_eq, ne_eq] at this
     exact this tx htx rfl
-  · intro e he bn h f hk
+  have hHdr : HdrBelow s b.number := by
+    intro e he bn h f hk
     have := hall e he
     rw [hk] at this
     simpa using this
-  · intro sc txi io
-    apply get_none_of
-    intro e he heq
-    have := hall e he
-    rw [heq] at this
-    simp at this
-  · intro sc txi io t
-    apply get_none_of
-    intro e he heq
-    have := hall e he
-    rw [heq] at this
-    simp at this
+  have wfr : WFRollback s b :=
+    { toWFAppend := wfa
+      freshLock := fun sc txi io => fresh (.cellLock sc b.number txi io) rfl
+      freshTxLock := fun sc txi io t => fresh (.txLock sc b.number txi io t) rfl
+      freshConsumed := fun op => fresh (.consumed b.number op) rfl
+      freshTx := hTx
+      hdrBelow := hHdr
+      lockInv := li }
+  exact
+    { toWFRollback := wfr
+      freshType := fun sc txi io => fresh (.cellType sc b.number txi io) rfl
+      freshTxType := fun sc txi io t => fresh (.txType sc b.number txi io t) rfl
+      typeInv := ti }
 
 end CkbVerif.Indexer
